@@ -4592,3 +4592,37 @@ def t_subscript_tmp_reserved(facts, res, tier):
             res.fail(key, facts.where(fn, st[idx]), "generate_expr evaluates a computed subscript without keeping cctmp for the program's Y (the slot of the `STY cctmp` is already reserved): a subscript that uses cctmp itself overwrites the parked Y")
     if n == 0:
         raise AnchorMissing("generate_expr: the first evaluation of a computed subscript was not found")
+
+
+@rule("T-SIGNEXT-ALL-ROUTES", floor=4,
+      text="an element of a `signed char` table can be reached at a constant offset, through X, through Y, or through a Y loaded from a memory "
+           "index or a pointer (Y parked meanwhile).  In the identifier arm of generate_expr every route that answers with the indexed operand "
+           "(`Ok(ExprType::AbsoluteX(..))` / `Ok(ExprType::AbsoluteY(..))`) is the other branch of a test `high_byte && .. signed` that answers with "
+           "generate_sign_extend: `s = tab[i]` otherwise gets $00 as its high byte where `s = tab[X]` gets the sign")
+def t_signext_all_routes(facts, res, tier):
+    fn = facts.fn("generate_expr", genmodel.GEN_QUAL)
+    par = _parents(fn["body"])
+    n = 0
+    for m in walk(fn["body"]):
+        if m.get("k") != "match" or expr_text(m["e"]).replace(" ", "") != "sub_output":
+            continue
+        for x in walk(m):
+            t = expr_text(x).replace(" ", "")
+            if not (x.get("k") == "call" and re.match(r"Ok\(ExprType::Absolute[XY]\(variable", t)):
+                continue
+            n += 1
+            key = "T-SIGNEXT-ALL-ROUTES:generate_expr:%s#%d" % (t[13:22], n)
+            q = x
+            guarded = False
+            while q is not None and q is not m:
+                pq, kq, iq = par.get(id(q), (None, None, None))
+                if pq is not None and pq.get("k") == "if" and kq == "else":
+                    c = expr_text(pq["cond"]).replace(" ", "")
+                    if "high_byte" in c and "signed" in c and any(_self_call(y, ("generate_sign_extend",)) for y in walk(pq["then"])):
+                        guarded = True
+                q = pq
+            res.inst(key, True, {"answer": t[:40], "other_branch_of_a_sign_extension": guarded})
+            if not guarded:
+                res.fail("T-SIGNEXT-ALL-ROUTES:generate_expr", facts.where(fn, x), "generate_expr answers `%s` on a route that has no `high_byte && .. signed` case with generate_sign_extend: the high byte of a signed char element reached this way is $00" % t[:40])
+    if n == 0:
+        raise AnchorMissing("generate_expr: no indexed answer in the match on the subscript")
